@@ -97,9 +97,15 @@ fn observed_trace(g: &Sexp) -> Vec<(usize, Vec<String>)> {
             let k = l[0].as_str().unwrap();
             let v = l[1].as_list().unwrap();
             if k == "arm" {
-                arm = v[1].as_atom().unwrap().parse().unwrap();
+                arm = v.get(1).and_then(|x| x.as_atom()).and_then(|a| a.parse().ok()).unwrap_or(usize::MAX);
             } else if let Some(ix) = k.strip_prefix('g') {
-                groups.push((ix.parse().unwrap(), v[1].as_str().unwrap_or("").to_string()));
+                // `$k` must be a string (the empty string for a group that did not participate): anything else is kept as a
+                // marker that can never equal the reference trace
+                let text = match (l[1].tag(), v.get(1).and_then(|x| x.as_str())) {
+                    (Some("str"), Some(t)) => t.to_string(),
+                    _ => format!("<not a string: {}>", l[1].pretty()),
+                };
+                groups.push((ix.parse().unwrap_or(usize::MAX), text));
             }
         }
         groups.sort();
